@@ -25,10 +25,12 @@ class Effect:
         return f'Effect({self.name})'
 
 
-def local_field_sources(body, l):
+def local_field_sources(body, l, through_mutation=True):
     """Field names (name, adt) appearing in the places the value of local l derives from."""
     out = set()
-    for x in body.derived_from(l):
+    if l is None:
+        return out
+    for x in body.derived_from(l, through_mutation=through_mutation):
         for bi, kind, payload in body.defs().get(x, ()):  # defining statements
             if kind in ('a', 'pw'):
                 for pl in rv_places(payload['rv']):
